@@ -18,7 +18,7 @@ import ast
 from ..alg import AlgError, Context, Rat
 from ..extract import Extractor, Closure, Opaque, PathRaises, ReturnValue, _dotted
 from ..classex import ClassEx
-from ..model import Program, walk_own, is_self_attr
+from ..model import Program, walk_own, is_self_attr, key_in, canon as K
 from ..report import AnalysisError
 from ..flow import possibly_undefined
 from .. import effects
@@ -298,7 +298,7 @@ def r5(prog, rep):
     ctx = Context()
     ex = Extractor(ctx, mod)
     ex.on_attr = lambda d, node, env: ctx.sym(d)
-    ex.on_subscript = lambda node, value, env: ctx.sym(" ".join(mod.text(node).split()))
+    ex.on_subscript = lambda node, value, env: ctx.sym(mod.code(node))
     captured = {}
 
     def on_call(node, fname, args, kwargs, env):
@@ -320,14 +320,14 @@ def r5(prog, rep):
     psi = ctx.sym("psi")
     ex.call_closure(clo, [psi], {})
     arg = captured.get("arg")
-    leg = ctx.sym('region["psi"]')
+    leg = ctx.sym(K('region["psi"]'))
     s_ = ctx.call("sign", ctx.sym("self.psi_sep[0]") - ctx.sym("self.psi_axis"))
     ok = isinstance(arg, Rat) and (arg - (leg + s_ * ctx.call("abs", psi - leg))).is_zero()
     rep.ob("R5", "leg pressure is the core profile at psi_leg + sign(psi_sep[0]-psi_axis)*|psi - psi_leg|", ok, f.site(lam),
            arg.show(200) if isinstance(arg, Rat) else str(arg), key="reflect/formula")
     # guard: leg regions are those whose kind contains a wall
-    t = " ".join(mod.text(block.test).split())
-    rep.ob("R5", "reflection applies to regions with a wall end (legs); other regions use the core profile", t == '"wall" in region["kind"]' and bool(block.orelse), f.site(block), t, key="reflect/guard")
+    t = mod.code(block.test)
+    rep.ob("R5", "reflection applies to regions with a wall end (legs); other regions use the core profile", t == K('"wall" in region["kind"]') and bool(block.orelse), f.site(block), t, key="reflect/guard")
     lb = [x for x in effects.late_bound_closures(f.node, mod) if x[3].endswith(".pressure")]
     names = sorted({c for x in lb for c in x[2]})
     rep.ob("R5", "the stored pressure closure does not read loop-assigned names at call time", not lb, f.site(lam),
@@ -386,11 +386,11 @@ class VersionEx(Extractor):
 
     def choose(self, test, env):
         t = self.text(test)
-        if "pressure is not None" in t:
+        if key_in("pressure is not None", t):
             return True
         if "self.psi_increasing" == t:
             return True
-        if "psi_outer" in t:
+        if key_in("psi_outer", t):
             return True
         return None
 
